@@ -359,3 +359,78 @@ func TestVerifC04K1024(t *testing.T) {
 func TestVerifC04K2048(t *testing.T) {
 	c04Run(t, "k2048", "k2048", vkit.Pick(2, 3), vkit.Thorough(), 240*time.Second, 1200*time.Second)
 }
+
+// TestVerifC04MixedKeyLists: several credentials under keys of different sizes shown in ONE list (one
+// shared secret-key randomiser and response): whatever the order of the keys, every member must verify -
+// the shared response has to fit the bounds of the smallest key.
+func TestVerifC04MixedKeyLists(t *testing.T) {
+	r := vkit.Start(t, "C04", "lists-over-keys-of-different-sizes", 120*time.Second, 400*time.Second)
+	defer r.Finish()
+	r.Rule = "every ordered pair and triple of distinct keys out of {toy, 1024-bit, 2048-bit, 4096-bit}, one credential each with the same secret, disclosure of attribute 1 (or none) in both session kinds through BuildProofList; non-trivial = distinct (key order, disclosure, session); oracle: the list verifies and every member reports exactly the chosen indices"
+	vfInstallEnv(t, "C04/mixed", r.Seed)
+	keys := []string{"toyA", "k1024a", "k2048", "k4096w"}
+	var orders [][]string
+	for _, a := range keys {
+		for _, b := range keys {
+			if a == b {
+				continue
+			}
+			orders = append(orders, []string{a, b})
+			for _, c := range keys {
+				if c != a && c != b {
+					orders = append(orders, []string{a, b, c})
+				}
+			}
+		}
+	}
+	secret := vfTag("c04-mixed-secret")
+	for _, ord := range orders {
+		for _, issig := range []bool{false, true} {
+			for _, D := range [][]int{{1}, {}} {
+				if _, mine := r.Next(); !mine {
+					continue
+				}
+				if r.Expired() {
+					return
+				}
+				desc := fmt.Sprintf("keys %v disclosed %v issig=%v", ord, D, issig)
+				r.Eval()
+				r.Nontrivial(desc)
+				var bl ProofBuilderList
+				var pks []*gabikeys.PublicKey
+				bad := false
+				for i, kn := range ord {
+					k := vfK(kn)
+					b, err := vfMint(k, secret, []*big.Int{vfTag("c04-mixed-a1"), vfInt(int64(7 + i))}, 2+i).CreateDisclosureProofBuilder(D, nil, false)
+					if err != nil {
+						r.Violate("C04|proof-not-created|builder", fmt.Sprintf("%s: %v", desc, err), desc)
+						bad = true
+						break
+					}
+					bl, pks = append(bl, b), append(pks, k.Pk)
+				}
+				if bad {
+					continue
+				}
+				var L ProofList
+				var err error
+				if pan, msg := vkit.Guard(func() { L, err = bl.BuildProofList(vfContext, vfNonce, issig) }); pan || err != nil {
+					r.Violate("C04|proof-not-created|BuildProofList", fmt.Sprintf("%s: %v %s", desc, err, msg), desc)
+					continue
+				}
+				ok := vsCloneList(L).Verify(pks, vfContext, vfNonce, issig, nil)
+				r.Outcome(fmt.Sprintf("mixed-key-list:len=%d:verifies=%v", len(ord), ok))
+				if !ok {
+					r.Violate("C04|honest-proof-rejected|list-over-keys-of-different-sizes", desc, desc)
+					continue
+				}
+				for mi, p := range L {
+					pd := p.(*ProofD)
+					if len(pd.ADisclosed) != len(D) || len(pd.AResponses) != 3-len(D) {
+						r.Violate("C04|index-sets-not-exact|list-over-keys-of-different-sizes", fmt.Sprintf("%s member %d", desc, mi), desc)
+					}
+				}
+			}
+		}
+	}
+}
